@@ -38,7 +38,7 @@ CHECKS["C20"] = dict(
         dict(pkg="server", name="C20_deques", bound="LockQueue, LockCommandQueue and LockManagerQueue behind one adaptor: all programs of 5 operations over 10 opcodes (Push, Pop, PopRight, PushLeft, Head+Tail, Resize, Restructuring, Reset, Rellac on a drained queue, iteration); constructor parameters (1,3,2) and (2,2,1)", flags=["-witness", "50000"], reach=["end"]),
         dict(pkg="server", name="C20_ring", bound="LockManagerRingQueue and LockManagerPriorityRingQueue (capacity 1..2): all programs of 5 operations (Push with priority 0..2, Pop, Head+MaxPriority+iteration) against a FIFO / stable priority queue", flags=["-witness", "20000"], reach=["end"]),
         dict(pkg="server", name="C20_waitqueue", bound="LockManagerWaitQueue pre-filled with 0 / 7 / 8 / 9 / 150 / 300 waiters (inline slice, its compaction and growth, overflow ring), 0 / 1 / 5 / all popped (0 / 5 for the two long fills), none / the first / the middle queued entry already answered (timeouted: the implementation may drop it at any time; the comparison is over live entries), then every program of 4 operations from {push priority 0, push priority 1, pop, observe head+length+iteration, switch to priority mode (RePushPriorityRingQueue), Reset} against a FIFO / stable priority queue", flags=["-witness", "500"], reach=["end"]),
-        dict(pkg="server", name="C20_holdqueue", bound="LockManagerLockQueue pre-filled with 0 / 5 / 6 / 7 / 140 / 300 holders (inline slice, compaction, scale queue + id map), then every program of 4 operations from {push, pop first live, release an entry in place (first / middle / last), iterate live entries, GetLock of a live entry}", flags=["-witness", "1000"], reach=["end"]),
+        dict(pkg="server", name="C20_holdqueue", bound="LockManagerLockQueue pre-filled with 0 / 5 / 6 / 7 / 140 / 300 holders (inline slice, compaction, scale queue + id map), 0 / all but one / all of a short fill or 0 / 1 / 130 / 280 of a long fill popped first, then every program of 4 operations from {push, pop first live, release an entry in place (first / middle / last), iterate live entries, GetLock of a live entry}", flags=["-witness", "1000"], reach=["end"]),
         dict(pkg="server", name="C20_lockqueue7", bound="as C20_lockqueue with 7 operations", flags=["-witness", "1000000"], reach=["end"], thorough_only=True),
         dict(pkg="server", name="C20_deques6", bound="as C20_deques with 6 operations and constructor parameters (1,1,1), (1,3,2), (2,2,1), (2,3,2)", flags=["-witness", "1000000"], reach=["end"], thorough_only=True),
         dict(pkg="server", name="C20_ring7", bound="as C20_ring with 7 operations", flags=["-witness", "1000000"], reach=["end"], thorough_only=True),
@@ -442,3 +442,5 @@ _quick("C07", "C07_shorten", "a persisted hold whose deadline was moved by an up
 _quick("C11", "C11_noaof", "a LOCK with the require-ack flag and persistence timing never / default / at once, on a free key or next to a never-persist holder, taken at once or granted from the wait queue: whenever it is answered SUCCED without waiting for acknowledgements (nothing is written) it is an ordinary hold — re-entrant LOCK and UNLOCK by its owner are accepted, never LOCK_ACK_WAITING", ["-witness", "1"], reach=["granted-at-once", "pending"])
 
 _quick("C01", "C01_prioritymutex", "the shard mutex (PriorityMutex.Lock / LowPriorityLock / HighPriorityLock and their unlocks) from a free mutex, with the other threads as nondeterminism: each of the next 5 atomic loads of the low-priority lane counter and of the high-priority flag returns an arbitrary value (solver variables); every lock function returns holding the inner mutex, every unlock gives it back", [], reach=["end", "locked"], native=False)
+
+_quick("C02", "C02_rolling", "a shared key of capacity 2 / 3 / 8 that is never free: filled, then 20 rounds of {the oldest holder releases, a new LockId takes the slot, the newest holder re-enters (Rcount 1) and releases that level, a stranger's unlock is refused}; after every round the key's holds are exactly the outstanding LockIds; at the end every holder's own UNLOCK is accepted", ["-witness", "1"])
